@@ -605,8 +605,11 @@ class GraphGen:
             if r.random() < 0.3:
                 k.ann = dict(r.choice(DOC_ANN))
             if r.random() < 0.4:
-                for s in r.sample(srcs, r.choice([1, 2])):
-                    k.add("dyn", s, style=self.style())
+                # same relative order as the registered ones: typing (and apischema, F21) identify Union[A, B] and
+                # Union[B, A], so one program must not contain both orders of the same reference union
+                picked = sorted(r.sample(range(len(srcs)), r.choice([1, 2])))
+                for i in picked:
+                    k.add("dyn", srcs[i], style=self.style())
             top = ConvT(k) if bare else self.wrapper([k])
         elif fam == "chain":
             k = self.opaque(self.leaf(), allow_dyn=r.random() < 0.5)
